@@ -177,6 +177,9 @@ def table_ref(ref, queries):
         ref.steps = 0
         for e in ref.iter_env(goal):
             rows.append(canon(vs, e))
+            if len(rows) > 40:
+                rows.append('runaway')   # same cap as table_impl: only the first 41 answers are compared
+                break
         out.append(tuple(rows))
     return tuple(out)
 
